@@ -1,7 +1,7 @@
 (* C16 — Reordering is cost-directed, stable and confined to and/or operands.
    Only statements; proofs in Proofs/Reorder.v. The Go side (sort.SliceStable over float64 costs) is tied to
    `reorder` by comparing Go's optimised tree with the model's on every run (integer-valued costs). *)
-Require Import Base Opcode Tables Ops Tree Opt Reorder.
+Require Import GroupSort Base Opcode Tables Ops Tree Opt Reorder.
 From Coq Require Import Permutation.
 Open Scope Z_scope.
 
@@ -67,6 +67,15 @@ Example C16_ex :
   = TOp (ss "+") false [TOp (ss "*") false [TVar (ss "a") 1; TConst (VInt 2)]; TConst (VInt 1)].
 Proof. vm_compute. repeat split. Qed.
 
+(* the whole pipeline, all passes on, in the pass order regenerated from the source: same-kind and/or groups of variables
+   nested in one another (any depth, any mix of spellings of the one kind) come out as ONE node whose operands are the
+   stable cost-ascending sort (C16_sort_* above) of their SOURCE order - so "equal cost keeps source order" and "cheaper
+   first" hold across the nesting, which needs flattening to run before sorting *)
+Theorem C16_groups_flatten_then_sort : forall custom cfg a n cs,
+  (forall name, pass_on cfg name = true) -> grp a (TOp n false cs) ->
+  optimize custom cfg (TOp n false cs) = TOp n (two_leaves (gleaves_list cs)) (sort_by (cost cfg) (gleaves_list cs)).
+Proof. intros custom cfg a n cs H. exact (optimize_group custom cfg H a n cs). Qed.
+
 (* the whole pipeline in its generated pass order (optimizations_order is regenerated from the source) on same-kind groups
    nested in one another: ONE node whose operands are the stable cost-ascending sort of their source order - flattening
    must come before sorting, or a nested group would be ranked as a unit and spliced in afterwards *)
@@ -82,5 +91,6 @@ Example C16_nested_groups :
 Proof. vm_compute. repeat split. Qed.
 
 Print Assumptions C16_sort_stable.
+Print Assumptions C16_groups_flatten_then_sort.
 Print Assumptions C16_raise_never_moves_ahead.
 Print Assumptions C16_large_cost_last.
